@@ -52,6 +52,8 @@ pub struct Ctl {
     pub chunk: Option<usize>,
     /// total bytes accepted from the client so far
     pub accepted: usize,
+    /// at most this many bytes are handed out per read call (None: as many as the caller has room for)
+    pub read_chunk: Option<usize>,
     readiness: Option<SetReadiness>,
 }
 
@@ -91,6 +93,9 @@ impl Handle {
         let mut c = (self.0).0.lock().unwrap();
         c.budget = budget;
         Handle::wake(&c);
+    }
+    pub fn set_read_chunk(&self, chunk: Option<usize>) {
+        (self.0).0.lock().unwrap().read_chunk = chunk;
     }
     pub fn set_chunk(&self, chunk: Option<usize>) {
         (self.0).0.lock().unwrap().chunk = chunk;
@@ -204,7 +209,8 @@ impl Read for LiveBroker {
         if self.inbox.is_empty() {
             return if eof { Ok(0) } else { Err(io::ErrorKind::WouldBlock.into()) };
         }
-        let n = buf.len().min(self.inbox.len());
+        let cap = (self.ctl.0).0.lock().unwrap().read_chunk.unwrap_or(usize::max_value()).max(1);
+        let n = buf.len().min(self.inbox.len()).min(cap);
         for b in buf[..n].iter_mut() {
             *b = self.inbox.pop_front().unwrap();
         }
